@@ -50,8 +50,25 @@ class Tok:
         return hash(("tok", self.id))
 
 
+class MTok:
+    """an abstract byte AND-ed with a constant mask"""
+    __slots__ = ("tok", "mask")
+
+    def __init__(self, tok, mask):
+        self.tok, self.mask = tok, mask
+
+    def __repr__(self):
+        return f"({self.tok!r}&{self.mask:#x})"
+
+    def __eq__(self, o):
+        return isinstance(o, MTok) and o.tok == self.tok and o.mask == self.mask
+
+    def __hash__(self):
+        return hash(("mtok", self.tok.id, self.mask))
+
+
 class Wide:
-    """little-endian integer made of byte slots (concrete 0..255 or Tok)"""
+    """little-endian integer made of byte slots (concrete 0..255, Tok or MTok)"""
     __slots__ = ("slots",)
 
     def __init__(self, slots):
@@ -71,7 +88,7 @@ def to_wide(v, nbytes):
     if isinstance(v, Wide):
         s = v.slots[:nbytes]
         return Wide(s + [0] * (nbytes - len(s)))
-    if isinstance(v, Tok):
+    if isinstance(v, (Tok, MTok)):
         return Wide([v] + [0] * (nbytes - 1))
     if isinstance(v, int):
         return Wide([(v >> (8 * i)) & 0xFF for i in range(nbytes)])
@@ -257,7 +274,7 @@ class Mini:
                 raise Unsupported(f"comparison {a!r} {op} {b!r}")
             return {"Eq": a == b, "Ne": a != b, "Lt": a < b, "Le": a <= b, "Gt": a > b, "Ge": a >= b}[op]
         nbytes = INT_BITS.get(ty, 64) // 8
-        if isinstance(a, (Tok, Wide)) or isinstance(b, (Tok, Wide)):
+        if isinstance(a, (Tok, Wide, MTok)) or isinstance(b, (Tok, Wide, MTok)):
             if op == "Shl" and isinstance(b, int):
                 w = to_wide(a, nbytes)
                 if b % 8 != 0:
@@ -294,8 +311,14 @@ class Mini:
                             out.append(0)
                         elif isinstance(s, int):
                             out.append(s & m)
+                        elif isinstance(s, Tok):
+                            out.append(MTok(s, m))
+                        elif isinstance(s, MTok):
+                            out.append(MTok(s.tok, s.mask & m))
                         else:
                             raise Unsupported("partial mask of an abstract byte")
+                    if isinstance(x, (Tok, MTok)) and nbytes == 1:
+                        return out[0]
                     return Wide(out)
             raise Unsupported(f"{op} on abstract values {a!r}, {b!r}")
         if isinstance(a, bool) or isinstance(b, bool):
